@@ -119,6 +119,12 @@ theorem inv_memo {c : Cfg} (h : CInv c) (m : List (Path × Option PayloadRef)) :
   ⟨h.be, h.ids, h.distinct, h.unwritten, h.written, h.registered, h.virginDoc, h.virginRepl, h.virginGc, h.cands,
    h.armed, h.reclaim, h.flags, h.replShape⟩
 
+/-- readers and the ghost history are invisible to the writer / collector invariant -/
+theorem inv_ghost {c : Cfg} (h : CInv c) (rs : List Rd) (hist : List (Path × Doc × Bytes)) :
+    CInv { c with rs := rs, hist := hist } :=
+  ⟨h.be, h.ids, h.distinct, h.unwritten, h.written, h.registered, h.virginDoc, h.virginRepl, h.virginGc, h.cands,
+   h.armed, h.reclaim, h.flags, h.replShape⟩
+
 theorem inv_gcList {c : Cfg} (h : CInv c) (cands : List BPath) : CInv (step c (.gcList cands)) := by
   simp only [step]
   by_cases hall : (cands.all (fun p => isPayloadPath p && (aget c.be p).isSome)) = true
@@ -976,7 +982,7 @@ theorem inv_wr {c : Cfg} (h : CInv c) (i : Nat) (a : WAct) : CInv (step c (.w i 
                       have key := inv_commit_put h i t g b hi (c.locks.erase t.k) hgd.1.1 hgd.1.2 hdel' hg hwb
                         (some (.put (g.id + 1) b))
                       simp only [hg, hwb, hdel'] at key ⊢
-                      exact key
+                      exact inv_ghost key c.rs _
       | reclaim =>
           simp only [wrStep]
           by_cases hgd : (!t.committed || t.reclaimed) = true
@@ -1029,6 +1035,11 @@ theorem inv_step {c : Cfg} (h : CInv c) (ch : Choice) : CInv (step c ch) := by
   | w i a => exact inv_wr h i a
   | gcList cands => exact inv_gcList h cands
   | gcStep => exact inv_gcStep h
+  | r i =>
+      simp only [step]
+      cases c.rs[i]? with
+      | none => exact h
+      | some t => exact inv_ghost h _ c.hist
   | tick => exact inv_tick h
 
 theorem inv_run {c : Cfg} (h : CInv c) (s : List Choice) : CInv (runSchedule c s) := by
